@@ -151,9 +151,23 @@ def contain (logger : String) (body : Res) (log : List LogRec) : Bool × List Lo
   | .ok => (true, log)
   | .raise e => (false, log ++ [{ logger := logger, exc := e, scriptTb := true }])
 
-/-- the function call of a trigger run.  `caught = true`: legacy `do_func_call` / the service handlers /
-`task.create` (`except Exception: log_exception`).  `caught = false`: the new subsystem's
-`FunctionDecoratorManager._call`, whose exception reaches `Function.run_coro` (generic logger, Python traceback). -/
+/-- the two trigger subsystems -/
+inductive Subsys where
+  | legacy      -- trigger.py: `do_func_call`
+  | new         -- decorator.py: `FunctionDecoratorManager._call`
+deriving Repr, DecidableEq, Inhabited
+
+/-- does the subsystem's trigger-function call have its own `except Exception: log_exception`?  Both do: the legacy
+`do_func_call` always did, `FunctionDecoratorManager._call` since the repair of finding C18-F2 (before it the
+exception reached `Function.run_coro`).  The correspondence runs certify these values against the code. -/
+def fnCaught : Subsys → Bool
+  | .legacy => true
+  | .new => true
+
+/-- the function call of a trigger run.  `caught = true`: `except Exception: log_exception` around the call
+(`do_func_call`, `FunctionDecoratorManager._call`, the service handlers, `task.create`).  `caught = false`: a call
+awaited without handler, whose exception reaches `Function.run_coro` (generic logger, Python traceback) – the shape
+the new subsystem had before the repair; kept for the regression witness. -/
 def callAction (caught : Bool) (logger : String) (body : Res) (log : List LogRec) : List LogRec :=
   match body with
   | .ok => log
